@@ -13,6 +13,8 @@ func init() {
 	const relW = "tars/util/rogger/logwriter.go"
 	mirrored[relW] = append(mirrored[relW], "RollFileWriter.Write", "reOpenFile", "NewRollFileWriter")
 	extras = append(extras, rollWriterAnchor)
+	mirrored["tars/panic.go"] = append(mirrored["tars/panic.go"], "CheckPanic")
+	extras = append(extras, checkPanicAnchor)
 	extras = append(extras, func(add func(string, int64, bool)) {
 		f := parse(rel)
 		if f == nil {
@@ -153,4 +155,93 @@ func rollWriterAnchor(add func(string, int64, bool)) {
 		v = 1
 	}
 	add("loggerRollReopenAfterRotate", v, true)
+}
+
+// checkPanicAnchor (Model/PanicExit.lean): the statement order of the recover branch of
+// tars.CheckPanic, as decimal digits, first statement first: 1 = debug.DumpStack(…),
+// 2 = rogger.FlushLogger() as a plain call statement, 3 = os.Exit(…), 4 = a deferred FlushLogger.
+// Statements that mention none of the three are skipped; one that hides a flush or an exit inside
+// (an if, a loop, a goroutine, a closure that is not deferred) is a shape the model does not have.
+func checkPanicAnchor(add func(string, int64, bool)) {
+	const rel = "tars/panic.go"
+	f := parse(rel)
+	if f == nil {
+		return
+	}
+	fd := f.funcDecl("CheckPanic")
+	if fd == nil || fd.Body == nil {
+		return
+	}
+	var branch *ast.IfStmt
+	ast.Inspect(fd.Body, func(n ast.Node) bool {
+		if is, ok := n.(*ast.IfStmt); ok && branch == nil {
+			src := exprStr(f.fset, is.Cond)
+			if is.Init != nil {
+				src += " " + exprStr(f.fset, is.Init)
+			}
+			if strings.Contains(src, "recover()") || strings.Contains(src, "!= nil") {
+				branch = is
+			}
+		}
+		return branch == nil
+	})
+	if branch == nil {
+		anchorLost("%s: CheckPanic: recover branch `if r := recover(); r != nil { … }` not found", rel)
+		return
+	}
+	kind := func(call *ast.CallExpr) int64 {
+		fn := exprStr(f.fset, call.Fun)
+		switch {
+		case strings.HasSuffix(fn, "DumpStack"):
+			return 1
+		case strings.HasSuffix(fn, "FlushLogger"):
+			return 2
+		case fn == "os.Exit" || strings.HasSuffix(fn, ".Exit"):
+			return 3
+		}
+		return 0
+	}
+	mentions := func(n ast.Node) (flush, exit bool) {
+		ast.Inspect(n, func(m ast.Node) bool {
+			if c, ok := m.(*ast.CallExpr); ok {
+				switch kind(c) {
+				case 2:
+					flush = true
+				case 3:
+					exit = true
+				}
+			}
+			return true
+		})
+		return
+	}
+	var seq int64
+	n := 0
+	for _, st := range branch.Body.List {
+		switch x := st.(type) {
+		case *ast.ExprStmt:
+			if c, ok := x.X.(*ast.CallExpr); ok {
+				if k := kind(c); k != 0 {
+					seq = seq*10 + k
+					n++
+					continue
+				}
+			}
+		case *ast.DeferStmt:
+			if fl, ex := mentions(x); fl && !ex {
+				seq = seq*10 + 4
+				n++
+				continue
+			}
+		}
+		if fl, ex := mentions(st); fl || ex {
+			anchorLost("%s: CheckPanic: `%s` hides a flush or an exit inside a statement the model does not have", rel, strings.SplitN(exprStr(f.fset, st), "\n", 2)[0])
+			return
+		}
+	}
+	if n == 0 || n > 15 {
+		anchorLost("%s: CheckPanic: no DumpStack / FlushLogger / os.Exit statements in the recover branch", rel)
+		return
+	}
+	add("panicCheckPanicSeq", seq, true)
 }
